@@ -318,6 +318,8 @@ def hand_corpus():
     S("HChunkThenCaseChunk", chunked(field("kind", "char"), brk(), field("a", "string"), brk()), switch("kind", "char", case(1, chunked(field("q", "string"), brk(), field("r", "string")))))
     S("HHardElem", field("", "char", hard=7), field("x", "char"))
     S("HArrHardElem", field("n", "char"), array("es", "HHardElem"))
+    # round 7: a positive offset on a char-sized length (the largest count is limit + offset)
+    S("HLenOffChar", length("n", "char", offset=2), array("xs", "char", length="n"), field("z", "char"))
     # round 6: objects without instructions (the generated serialize() had an empty try block: fix f2d221e)
     S("HEmpty")
     S("HHoldsEmpty", field("a", "char"), field("e", "HEmpty"), field("z", "char"))
